@@ -112,7 +112,12 @@ func checkWrkChainMaxSlots(ctx sdk.Context, tx sdk.FeeTx, wck WrkchainKeeper) er
 				purchaseData[wrkchainId] = b{max: maxCanPurchase, want: numSlots}
 			} else {
 				pd := purchaseData[wrkchainId]
-				pd.want = pd.want + numSlots
+				if pd.want+numSlots < pd.want {
+					// overflow: more than any maximum
+					pd.want = ^uint64(0)
+				} else {
+					pd.want = pd.want + numSlots
+				}
 				purchaseData[wrkchainId] = pd
 			}
 		}
